@@ -81,6 +81,7 @@ func run(id, tier, only string) int {
 		fn(c)
 	}()
 	if only != "" {
+		c.NoEvid = true
 		var keep []engine.Obligation
 		for _, o := range c.Obs {
 			if o.ID() == only {
